@@ -1398,7 +1398,9 @@ class DiskRefsContainer(RefsContainer):
             # This avoids fsync when ref is unchanged but still detects lock conflicts
             current_ref = self.read_loose_ref(realname)
             if current_ref is None:
-                current_ref = packed_refs.get(realname, None)
+                # (not the packed_refs passed in: that table was read before
+                # the lock was taken and may have lost the entry since)
+                current_ref = self.get_packed_refs().get(realname, None)
 
             if current_ref is not None and current_ref == new_ref:
                 # Ref already has desired value, abort write to avoid fsync
